@@ -85,6 +85,15 @@ def scenarios(c):
     for alg in ('h', 'y') if c.tier != 'thorough' else 'haxy':
         for k in (1, 2, 3, 4, 9):
             S.append({'kind': 'sumlistfault', 'alg': alg, 'nfiles': 120, 'k': k}); c.distinct([('sumlistfault', alg, k)])
+    # failure counts around the 8-bit wrap of an exit status
+    for chk in (0, 1):
+        for nfail in (0, 1, 255, 256, 257, 512):
+            S.append({'kind': 'summany', 'alg': 'h', 'nfail': nfail, 'check': chk}); c.distinct([('summany', chk, nfail)])
+    # key files whose first lines differ only beyond the 1023 bytes a password may have, at the limit, and early
+    base = bytes((65 + i % 26) for i in range(1100))
+    for cut, tail1, tail2 in ((1030, b'-first', b'-other'), (1023, b'', b'X'), (1022, b'A', b'B'), (40, b'1', b'2'), (2000, b'aa', b'ab')):
+        S.append({'kind': 'crypt', 'what': 'wrongkeyfile', 'size': 64, 'keyfile': list(base[:1] * 0 + (base * 2)[:cut] + tail1 + b'\n'), 'keyfile2': list((base * 2)[:cut] + tail2 + b'\n')})
+        c.distinct([('wrongkeyfile', cut)])
     # ... and when the k-th write to standard output fails (800 names = several stdio buffers of output)
     for alg in ('h',) if c.tier != 'thorough' else 'haxy':
         for chk in (0, 1):
